@@ -85,31 +85,18 @@ Proof.
   rewrite !IH. destruct (walkstar f vv1 s); cbn; [|reflexivity]. destruct (walkstar f vv2 s); reflexivity.
 Qed.
 
-Lemma g_reifys_spec : forall f v s, g_reifys f v s = of_opt (reifys f v s).
-Proof.
-  induction f as [|f IH]; intros v s; [reflexivity|].
-  cbn [g_reifys reifys]. cbv zeta. rewrite g_walkt_shape. destruct (walkt f v s) as [vv|]; [|reflexivity].
-  destruct vv; cbn; try reflexivity.
-  - rewrite fresh_append. reflexivity.
-  - rewrite IH. destruct (reifys f vv1 s); cbn; [|reflexivity]. apply IH.
-Qed.
-
-Lemma g_reifyS_spec f v : g_reifyS f v = of_opt (reifys f v []).
-Proof. unfold g_reifyS. apply g_reifys_spec. Qed.
-
 (* ---- consequences stated on the generated code alone ---- *)
 Theorem code_never_panics : forall f u v s x,
   g_unify f u v s <> Panic /\ g_walk f x s <> Panic /\ g_occurs f x v s <> Panic /\ g_exts f x v s <> Panic /\
-  g_walkStar f v s <> Panic /\ g_reifys f v s <> Panic /\ g_assv x s <> Panic.
+  g_walkStar f v s <> Panic /\ g_assv x s <> Panic.
 Proof.
-  intros f u v s x. rewrite g_unify_spec, g_walk_spec, g_occurs_spec, g_exts_spec, g_walkStar_spec, g_reifys_spec, g_assv_spec.
+  intros f u v s x. rewrite g_unify_spec, g_walk_spec, g_occurs_spec, g_exts_spec, g_walkStar_spec, g_assv_spec.
   repeat split; try discriminate.
   - destruct (unify f u v s); discriminate.
   - destruct (walk f x s); discriminate.
   - destruct (occurs f x v s); discriminate.
   - destruct (exts f x v s); discriminate.
   - destruct (walkstar f v s); discriminate.
-  - destruct (reifys f v s); discriminate.
 Qed.
 
 Lemma g_unify_ok f u v s s' : g_unify f u v s = Ret (s', true) <-> unify f u v s = Ok s'.
@@ -137,10 +124,3 @@ Proof.
 Qed.
 Theorem code_unify_wf : forall f u v s s', wf s -> g_unify f u v s = Ret (s', true) -> wf s'.
 Proof. intros f u v s s' W H. apply g_unify_ok in H. exact (unify_wf f u v s s' W H). Qed.
-
-Theorem code_reify_var : forall f q st,
-  bind (g_walkStar f (TVar q) (sub st)) (fun vv => bind (g_reifyS f vv) (fun r => g_walkStar f vv r)) = of_opt (reify_var f q st).
-Proof.
-  intros f q st. unfold reify_var. rewrite g_walkStar_spec. destruct (walkstar f (TVar q) (sub st)) as [vv|]; [|reflexivity].
-  cbn [of_opt bind]. rewrite g_reifyS_spec. destruct (reifys f vv []) as [r|]; [|reflexivity]. cbn [of_opt bind]. apply g_walkStar_spec.
-Qed.
